@@ -30,7 +30,8 @@ FEATS = dict(div=False, ts=False, strftime=False, nulls_order="explicit", setops
              self_join=False,         # same-named columns of two sources collide in aggregation
              stars="single-source",
              derived_order_nolimit=False, outer_derived=False, subq_under_or=False, cross_join_derived=False,
-             lit_left_cmp=False, star_dup_order=False, same_col_const_pair=False, group_derived_expr=False, tvl=True)
+             lit_left_cmp=False, star_dup_order=False, same_col_const_pair=False, group_derived_expr=False, tvl=True, deep_corr=0.15,
+             scalar_subq_max=1)       # two unnested scalar subqueries both expose "_col_0": same-named columns collide in aggregation
 
 T = sqlgen.Table
 _T1 = T("t1", [("a1", sqlgen.INT), ("b1", sqlgen.INT), ("s1", sqlgen.TEXT)])
@@ -39,6 +40,9 @@ _T3 = T("t3", [("a1", sqlgen.INT), ("c3", sqlgen.INT)])
 _D = {"t1": [(1, 2, "x"), (-2, 3, None), (None, 0, "y"), (1, 2, "x")], "t2": [(1, 2, "x"), (3, None, "10"), (3, 3, "q")],
       "t3": [(1, 5), (7, 6)]}
 PROBES = [
+    ("probe/aggregate-next-to-two-unnested-scalar-subqueries",
+     "SELECT AVG(CASE WHEN d.p = 3 THEN d.p ELSE d.p END) AS m1, MAX(d.p) AS m2 FROM (SELECT (SELECT MIN(y.b1) FROM t1 AS y WHERE y.b1 = x.a1) AS p "
+     "FROM t3 AS z LEFT JOIN t1 AS x ON z.c3 = x.a1 WHERE COALESCE(1, 0, x.a1) < (SELECT COUNT(w.a2) FROM t2 AS w)) AS d", False),
     ("probe/mod-negative-operand", "SELECT a1 % 3 AS p FROM t1 ORDER BY p NULLS FIRST", True),
     ("probe/count-distinct", "SELECT COUNT(DISTINCT a1) AS p FROM t1", False),
     ("probe/distinct+order-by", "SELECT DISTINCT a1 AS p FROM t1 ORDER BY p DESC NULLS FIRST", True),
